@@ -106,6 +106,8 @@ def check_nodes(tree, nodes):
                 for i, (s, d) in enumerate(zip(starts, ds)):
                     if s <= x < s + d:
                         exp = i
+                if isinstance(r, str) and r.startswith("raised-"):
+                    return f"lookup at {x} raised {r[7:]} (the time was handed over in one of the kinds of Duration.Type)"
                 got = None if r == "none" else (r if r == "event-at-differs" else int(r))
                 if got != exp:
                     return f"lookup at {x} returned {got}, the child whose half-open range contains it is {exp}"
